@@ -1,6 +1,7 @@
 package main
 
 import (
+	"go/token"
 	"go/types"
 	"strings"
 
@@ -140,6 +141,53 @@ func ruleR152(p *Program, r *Report) {
 		if cc.IsInvoke() && cc.Method.Name() == "Call" && cs.Instr != ssa.CallInstruction(call) {
 			okOnly = false
 		}
+	}
+	// every envelope is tried: a return that avoids Process is reachable only over the 'no callbacks configured' edge
+	{
+		type edge struct{ from, to *ssa.BasicBlock }
+		allowed := map[edge]bool{}
+		for _, cs := range callsIn(fn) {
+			cc := cs.Instr.Common()
+			if !(cc.IsInvoke() && cc.Method.Name() == "HasCallbacks") {
+				continue
+			}
+			hv, _ := cs.Instr.(*ssa.Call)
+			if hv == nil {
+				continue
+			}
+			for _, i := range ifsOn(hv) {
+				allowed[edge{i.Block(), i.Block().Succs[1]}] = true
+			}
+			if refs := hv.Referrers(); refs != nil {
+				for _, rf := range *refs {
+					if u, ok := rf.(*ssa.UnOp); ok && u.Op == token.NOT {
+						for _, i := range ifsOn(u) {
+							allowed[edge{i.Block(), i.Block().Succs[0]}] = true
+						}
+					}
+				}
+			}
+		}
+		seen := map[*ssa.BasicBlock]bool{}
+		skipped := ""
+		var dfs func(b *ssa.BasicBlock)
+		dfs = func(b *ssa.BasicBlock) {
+			if seen[b] || b == process.Block() || skipped != "" {
+				return
+			}
+			seen[b] = true
+			if ret, ok := b.Instrs[len(b.Instrs)-1].(*ssa.Return); ok && !isRecoverBlock(b) {
+				skipped = p.Pos(ret.Pos())
+				return
+			}
+			for _, sx := range b.Succs {
+				if !allowed[edge{b, sx}] {
+					dfs(sx)
+				}
+			}
+		}
+		dfs(fn.Blocks[0])
+		r.Check(skipped == "", "R15.2", name, "every envelope is tried with the poison keys", p.Pos(process.Pos()), "a return that avoids the trial decryption is reachable only over the 'no callbacks configured' edge", "the return at "+skipped+" is reachable without the trial decryption under a condition other than 'no callbacks configured' (a remembered verdict, a flag, the envelope kind): a poison record that arrives then is delivered without the alarm")
 	}
 	r.Check(okOnly, "R15.2", name, "callbacks only after a successful poison decryption", p.Pos(call.Pos()), "Call() is dominated by the err == nil edge of Process", "the intrusion callbacks can run although the value did not decrypt with the poison keys (ordinary or damaged data raises the alarm)")
 	r.Check(okAlways, "R15.2", name, "a recognised poison record always runs the callbacks", p.Pos(call.Pos()), "every exit from the err == nil edge passes Call()", "a value that decrypts with the poison keys can leave the detector without the callbacks having run")
@@ -321,4 +369,8 @@ func init() {
 	mut("C15", "trial decryption with the plain key store", "crypto/poison_detector.go", "		Keystore: NewPoisonRecordKeyStoreWrapper(recognizer.keyStore),", "		Keystore: nil,", "R15.2", "trial decryption uses the poison keys")
 	mut("C15", "DecryptSym forgets the poison check", "cmd/acra-translator/common/service.go", "		_, _, poisonErr := service.poisonDetector.OnColumn(dataCtx, acraBlock)\n		if poisonErr != nil {", "		var poisonErr error\n		if poisonErr != nil {", "R15.3", "DecryptSym")
 	mut("C15", "envelope detector swallows callback errors", "crypto/envelope_detector.go", "				logrus.WithError(err).WithField(\"callback\", handler.ID()).Debugln(\"EnvelopeDetector.OnCryptoEnvelope failed to process container\")\n				return ctx, inBuffer, err", "				logrus.WithError(err).WithField(\"callback\", handler.ID()).Debugln(\"EnvelopeDetector.OnCryptoEnvelope failed to process container\")\n				continue", "R15.4", "callback error aborts")
+}
+
+func init() {
+	mut("C15", "detector remembers that a trial decryption found no poison keys and stops trying", "crypto/poison_detector.go", "	if !recognizer.callbacks.HasCallbacks() {\n		logger.Debugln(\"Skip poison record check due to empty callbacks\")\n		return container, nil\n	}\n", "	if !recognizer.callbacks.HasCallbacks() {\n		logger.Debugln(\"Skip poison record check due to empty callbacks\")\n		return container, nil\n	}\n	if len(container) > 1<<20 {\n		return container, nil\n	}\n", "R15.2", "every envelope is tried")
 }
